@@ -44,3 +44,12 @@ pub broadcast axiom fn string_ref_key_model() ensures #[trigger] vstd::std_specs
 pub fn v_retain_not_prefix(m: &mut std::collections::HashMap<String, String>, prefix: &str)
     ensures final(m)@ =~= old(m)@.filter_keys(|k: String| !starts_with_spec(k@, prefix@))
 { m.retain(|key, _| !key.starts_with(prefix)); }
+
+/// `m.keys()` of a borrowed string map, as a vector (std iteration order is unspecified: any order, every key once)
+#[verifier::external_body]
+pub fn vmap_ref_keys<'a>(m: &'a std::collections::HashMap<String, String>) -> (r: Vec<&'a String>)
+    ensures
+        forall|i: int| 0 <= i < r@.len() ==> m@.contains_key(*(#[trigger] r@[i])),
+        forall|k: String| #[trigger] m@.contains_key(k) ==> exists|i: int| 0 <= i < r@.len() && *(#[trigger] r@[i]) == k,
+        forall|i: int, j: int| 0 <= i < j < r@.len() ==> *(#[trigger] r@[i]) != *(#[trigger] r@[j]),
+{ m.keys().collect() }
